@@ -1,7 +1,9 @@
 package main
 
 import (
+	"fmt"
 	"math/rand"
+	"os"
 	"sort"
 )
 
@@ -133,7 +135,14 @@ func cmdEnums(o opts) {
 		return
 	}
 
-	for _, t := range enumTypes {
+	stride := 1 // the run on a 32-bit build probes every fourth type (VERIF_ENUM_STRIDE)
+	if s := os.Getenv("VERIF_ENUM_STRIDE"); s != "" {
+		fmt.Sscanf(s, "%d", &stride)
+	}
+	for i, t := range enumTypes {
+		if stride > 1 && i%stride != int(o.seed)%stride {
+			continue
+		}
 		rec.Put(enumRecord(t, byType[t.Name], r, thorough))
 	}
 	rec.Close()
